@@ -105,7 +105,7 @@ def prims : Prims where
   newRefval := newRefvalP
   constant := decConstant
   factorValue := decFactorC
-  lastValues := decLastValues
+  lastValues := decLastValuesC
 
 end Bufr.ColParse
 
